@@ -213,6 +213,35 @@ def run(tier, seed):
             ck.validated += 1
         else:
             ck.engine_errors.append('translator validation mismatch %s%r: exec events %r native %r' % (op, args, evs, n[1]))
+    # ---- the program-memory transfer instructions (movd, movp): the DSP-side path into the program space. The word address is
+    # the 16-bit register value extended by the page bits in pcmhi; the value moved is the word the data / program accessor returns
+    from checks import c03, c08
+    IE = c03.env()
+    Rr = IE.R()
+    oo, ee = z3.BitVec('o', 16), z3.BitVec('e', 16)
+    for nm_, types in (('movd', ('R0123', 'StepZIDS', 'R45', 'StepZIDS')), ('movp', ('Rn', 'StepZIDS', 'R0123', 'StepZIDS')), ('movp', ('Axl', 'Register'))):
+        try:
+            i_ = c08.find(IE, nm_, types)
+            Apre = IE.inv() + [IE.match_pred(IE.rows[i_], oo)]
+            rr = IE.run_row(i_, oo, ee, Apre)
+        except Exception as x:
+            ck.inconclusive.append('ProgramTransfer[%s%r]: %s' % (nm_, types, str(x)[:100]))
+            continue
+        ck.ninstr += rr['ninstr']
+        ck.nstates += 1
+        evs = [ev for ev in (rr['st'].log if rr['st'] is not None else []) if ev[0] in ('P', 'PW')]
+        page = z3.ZeroExt(30, z3.Extract(1, 0, Rr['pcmhi']))
+        g = [z3.BoolVal(len(evs) == 1)]
+        for ev in evs:
+            a_ = bv(ev[2], 32)
+            g.append(z3.Implies(kit.path_cond(ev[1]), z3.LShR(a_, 16) == page))
+        if nm_ == 'movd' and evs:
+            rd = [ev for ev in rr['st'].log if ev[0] == 'R']
+            g.append(z3.BoolVal(len(rd) == 1))
+            if len(rd) == 1:
+                g.append(bv(evs[0][3], 16) == z3.Select(IE.pre_dmem(), bv(rd[0][2], 16)))
+        ck.prove('ProgramTransfer[%s%s]' % (nm_, '(%s)' % ','.join(types)), Apre, z3.And(*g), vars=c03.vars_of(Rr, {'o': oo, 'e': ee}),
+                 sample='%s: exactly one program-space access, at word (pcmhi << 16) | <16-bit register value>%s' % (nm_, '; the word written is the data word read' if nm_ == 'movd' else ''))
     # the host-facing memory API of src/teakra.cpp on the real object graph forwards to exactly these accessors
     from checks import facade
     facade.obligations(ck, 'mem')
